@@ -3,6 +3,7 @@ from contracts import density as D
 from contracts import loaders as L
 
 from contracts import wrappers as W
+from contracts import loaders as LD
 ID = "C06"
 LEVEL = "proof"
 TRUSTED = ["A1 real arithmetic (algebra units)", "A6 solvers",
@@ -16,7 +17,7 @@ EXPLANATION = ("Closed obligations (eval, exhaustive): every element and isotope
 
 
 def units(tier):
-    return ([D.U_DENSITY_EL, D.U_DENSITY_ISO] + D.U_NUMBER_DENSITY + D.U_INTERATOMIC + L.U_MASS_ABUNDANCE_LOOP) + W.U_MASS_GETTERS
+    return (([D.U_DENSITY_EL, D.U_DENSITY_ISO] + D.U_NUMBER_DENSITY + D.U_INTERATOMIC + L.U_MASS_ABUNDANCE_LOOP) + W.U_MASS_GETTERS) + LD.U_DENSITY_ROW
 
 
 def runner_tasks(tier):
